@@ -321,6 +321,9 @@ class TdmsReader(object):
         if segment_incomplete:
             # Segment size is unknown. This can happen if LabVIEW crashes.
             next_segment_pos = self._data_file_size
+            if next_segment_pos is None:
+                # Only an index file is available so the amount of data in this segment can't be determined
+                next_segment_pos = data_position
         else:
             next_segment_pos = (
                     segment_position + next_segment_offset + lead_size)
